@@ -543,8 +543,8 @@ func (f *serverFactory) GetStream(node string) protoCommonV1.TaskService_HandleS
 	return &stream{c: f.c, from: f.self, to: node, ctx: context.Background()}
 }
 func (f *serverFactory) Register(string, protoCommonV1.TaskService_HandleServer) int64 { return 0 }
-func (f *serverFactory) Deregister(int64, string) bool                                  { return true }
-func (f *serverFactory) Nodes() []models.Node                                           { return nil }
+func (f *serverFactory) Deregister(int64, string) bool                                 { return true }
+func (f *serverFactory) Nodes() []models.Node                                          { return nil }
 
 type stream struct {
 	grpc.ServerStream
